@@ -22,6 +22,12 @@ def showQubo (d : MPData) (suff : Rat) (feas : Bool) (rho? : Option Rat) : Strin
   if !d.wellShaped then "err:shape" else
   s!"ok {d.n} {showRat rho} | {showMat (tabulate2 d.n d.n (d.quboQ rho feas))} | {showRat (d.quboK rho)}"
 
+/-- `test_feasibility` on a list of vectors: `viol-rows | vio_q | nnz` per vector -/
+def showTF (d : MPData) (xs : List (List Rat)) : String :=
+  " | ".intercalate (xs.map fun x =>
+    let r := d.testFeasibility (vecOf x)
+    s!"{showList showBool r.1} | {showRat r.2.1} | {r.2.2}")
+
 /-! ### arc-based -/
 def showATup (u : ATup) : String := s!"{u.1} {showRat u.2.1} {u.2.2.1} {showRat u.2.2.2}"
 def pATup : P ATup := do let i ← pNat; let s ← pRat; let j ← pNat; let t ← pRat; pure (i, s, j, t)
@@ -34,6 +40,10 @@ def pArcInst : P ArcInst := do
 def cmdArcData : P String := do
   let I ← pArcInst; pEnd
   pure s!"ok {showList showATup I.vars} | {showRats I.T} | {showRat I.suffPenalty} | {showMP I.data}"
+
+def cmdArcTF : P String := do
+  let I ← pArcInst; let xs ← pList (pList pRat); pEnd
+  pure s!"ok {showTF I.data xs}"
 
 def cmdArcQubo : P String := do
   let I ← pArcInst; let feas ← pBool; let rho ← pRho; pEnd
@@ -105,6 +115,10 @@ def cmdPathData : P String := do
   let P ← pPathLit; pEnd
   pure s!"ok {showRat P.suffPenalty} | {showMP P.data}"
 
+def cmdPathTF : P String := do
+  let P ← pPathLit; let xs ← pList (pList pRat); pEnd
+  pure s!"ok {showTF P.data xs}"
+
 def cmdPathQubo : P String := do
   let P ← pPathLit; let feas ← pBool; let rho ← pRho; pEnd
   pure (showQubo P.data P.suffPenalty feas rho)
@@ -133,6 +147,12 @@ def cmdSeqData : P String := do
   | none => pure s!"err:assert {showGraph I.g}"
   | some d =>
     pure s!"ok {showList showSTup I.vars} | {showGraph I.g} | {showRat I.suffPenalty} | {" ".intercalate fixedTab} | {showMP d}"
+
+def cmdSeqTF : P String := do
+  let I ← pSeqInst; let xs ← pList (pList pRat); pEnd
+  match I.data with
+  | none => pure "err:assert"
+  | some d => pure s!"ok {showTF d xs}"
 
 def cmdSeqQubo : P String := do
   let I ← pSeqInst; let feas ← pBool; let rho ← pRho; pEnd
@@ -182,7 +202,7 @@ def cmdPathHeur : P String := do
     pure s!"ok {showGraph Q.g} | {showList (fun rt => showList toString rt) Q.routes} | {showRats Q.costs} | {showRats sol}"
 
 def formCmds : List (String × P String) :=
-  [("arc.data", cmdArcData), ("arc.qubo", cmdArcQubo), ("arc.lookup", cmdArcLookup),
+  [("arc.tf", cmdArcTF), ("path.tf", cmdPathTF), ("seq.tf", cmdSeqTF), ("arc.data", cmdArcData), ("arc.qubo", cmdArcQubo), ("arc.lookup", cmdArcLookup),
    ("path.hist", cmdPathHist), ("path.data", cmdPathData), ("path.qubo", cmdPathQubo),
    ("seq.decode", cmdSeqDecode), ("arc.decode", cmdArcDecode), ("seq.heur", cmdSeqHeur), ("arc.heur", cmdArcHeur), ("path.heur", cmdPathHeur), ("seq.data", cmdSeqData), ("seq.qubo", cmdSeqQubo), ("seq.lookup", cmdSeqLookup)]
 
